@@ -115,6 +115,8 @@ def run(ctx):
         spec.pop('rng', None)
         if cell[0] != 'FCS2.0' and rng.random() < 0.3:
             spec['stext'] = [('SUPP1', 'x'), ('SUPP2', 'y' + spec['delim'] + 'z')]
+            if rng.random() < 0.4:
+                spec['stext_position'] = 'before_text'
         raw, lay = fcsgen.build(spec)
         desc = layouts.describe(spec)
         with open(path, 'wb') as fh:
